@@ -1279,11 +1279,12 @@ fn emit_target(ctx: &mut Ctx, unit: &Unit, t: &Target) -> Emitted {
                     Some(fc) if lines[fc].trim_start().starts_with('?') => {
                         let name = format!("{}/{}/{}[{}]", unit.name, t.name, kw, k);
                         if drop_list.contains(&name) {
-                            "/*?*/ true /* dropped: no longer typed */".to_string()
+                            // (the leading comment lines stay: they may carry `@alt` / `@only` tags)
+                            format!("/*?*/\n{}\ntrue /* dropped: no longer typed */", lines[..fc].join("\n"))
                         } else {
                             let l = lines[fc].trim_start().trim_start_matches('?').trim_start().to_string();
                             lines[fc] = l;
-                            format!("/*?*/ {}", lines.join("\n"))
+                            format!("/*?*/\n{}", lines.join("\n"))
                         }
                     }
                     _ => c,
